@@ -1912,6 +1912,19 @@ def rule_tokeniser_access(m):
     """Checked accessors only in the tokeniser path."""
     res = RuleResult('F-IO.TOK', 'the tokeniser and the line loop use only checked string accessors on computed positions '
                                  '(substr / find*); the only raw subscript is line[0], defined for the empty string')
+    # tokens of the file are not matched with std::regex: the matcher of the platform library (libstdc++) recurses once per
+    # matched character, so a long token overflows the stack inside the loader
+    for f in m.fns:
+        if not f.tname.startswith(IO):
+            continue
+        for n in f.nodes:
+            if n['k'] == 'CallExpr' and 'callee' in n and f.unit.decl(n['callee'])['tname'] in (
+                    'std::regex_match', 'std::regex_search', 'std::regex_replace'):
+                res.sites += 1
+                res.fail(Finding('F-IO.TOK', f.display(), 'std::regex on file content', f.nloc(n['i']),
+                                 '`%s` matches text taken from the file with std::regex: libstdc++ implements the matcher by recursion '
+                                 'on the input, so a token of some ten thousand characters ends in a stack overflow instead of an '
+                                 'exception' % f.expr_text(n['i'])[:60]))
     for f in io_functions(m, IO + 'findEdgeFromString') + io_functions(m, LOADER_TEXT):
         tt = Terms(f)
         for n in f.nodes:
